@@ -27,7 +27,7 @@ var libPure = map[string]bool{
 	"fmt.Errorf": true, "fmt.Sprintf": true, "fmt.Sprint": true, "fmt.Sprintln": true, "errors.New": true,
 	"github.com/tdewolff/parse/v2/strconv.ParseFloat": true, "github.com/tdewolff/parse/v2/strconv.ParseInt": true,
 	"github.com/tdewolff/parse/v2/strconv.ParseUint": true,
-	"image/jpeg.Encode": true, "image/png.Encode": true,
+	"image/jpeg.Encode": true, "image/png.Encode": true, "(image.Point).Eq": true,
 	"(*github.com/tdewolff/parse/v2/css.Parser).Next": true, "(*github.com/tdewolff/parse/v2/css.Parser).Values": true,
 	"github.com/tdewolff/parse/v2/css.NewParser": true, "github.com/tdewolff/parse/v2.NewInputBytes": true, "github.com/tdewolff/parse/v2.NewInput": true,
 	"(*strings.Builder).Write": true,
@@ -152,6 +152,17 @@ func (x *Exec) callLibrary(s *State, fn *types.Func, recv *Term, args []*Term, c
 			s.assume(Cmp("<=", IntLit(0), v[0]))
 		}
 		return v, true
+	case "(image.Point).Eq":
+		libUsed[full] = "exact: both coordinates equal"
+		r := recv
+		a := args
+		if r == nil && len(a) > 0 {
+			r, a = a[0], a[1:]
+		}
+		if r != nil && len(a) == 1 && r.S == a[0].S {
+			return []*Term{Eq(r, a[0])}, true
+		}
+		return nil, false
 	case "image/jpeg.Encode", "image/png.Encode":
 		libUsed[full] = "reads the image (At/Bounds/ColorModel are pure queries) and writes only through its io.Writer argument, which like fmt.Fprintf reaches nothing of the verified state; returns an arbitrary error"
 		s.log = append(s.log, "?")
